@@ -73,6 +73,8 @@ type Contract struct {
 	LemmaParams string // lemma: Go parameter list
 	Implements string // interface contract this method must satisfy (behavioural subtyping)
 	GhostInc   [][2]string // ghost counters advanced by every call: (name, parameter)
+	Triggers   []*Clause   // lemma: multi-patterns used when the lemma is instantiated by `uses`
+	Uses       []string    // proved lemmas assumed (universally quantified) in this proof
 	Induction  string // lemma: induction variable
 }
 
@@ -232,6 +234,10 @@ func ParseContracts(path string) (*ContractFile, error) {
 			cur.Props = strings.Fields(rest)
 		case "implements":
 			cur.Implements = rest
+		case "trigger":
+			cur.Triggers = append(cur.Triggers, mkClause("trigger", rest, pendingLine, &auto))
+		case "uses":
+			cur.Uses = append(cur.Uses, strings.Fields(rest)...)
 		case "ghostinc":
 			f := strings.Fields(rest)
 			if len(f) != 2 {
